@@ -610,6 +610,14 @@ def boundary_cases():
     mk("iv_inexact", ["A 1 %d 2900000ns" % (c + 2899), "A 2 %d 1500ns" % (c + 1), "A 3 %d 100500ns" % (c + 100), "T 2899", "F [ ]", "T 2899", "F [ ]", "T 1", "F [ ]"])
     mk("iv_sub_us_self_cancel", ["A 1 %d 1ns" % (c + 10), "T 10", "F [ ]", "T 100", "F [ C 1 ]", "T 100", "F [ ]"])
     mk("q_from_callback", ["A 1 %d 0" % (c + 10), "T 10", "F [ Q { A 2 %d 0 | C 1 } ]" % (c + 5), "P", "F [ ]"])
+    # long horizons: delays / intervals beyond 2^31 and 2^32 microseconds (36 and 72 minutes): every place that carries a
+    # time or a time difference (addTime's delta, howMuchTimeFromNow, the timespec split) must be 64 bit
+    mk("long_delay", ["A 1 %d 0" % (c + 3000000000), "A 2 %d 0" % (c + 5000000000), "A 3 %d 0" % (c + 2147483648), "T 2147483647", "F [ ]", "T 1", "F [ ]",
+                      "T 852516352", "F [ ]", "T 2000000000", "F [ ]"])
+    mk("long_interval", ["A 1 %d 4300000000" % (c + 4300000000), "T 4300000000", "F [ ]", "T 4300000000", "F [ ]", "T 4299999999", "F [ ]", "T 1", "F [ ]",
+                         "C 1", "T 4300000000", "F [ ]"])
+    mk("long_nested", ["A 1 %d 0" % (c + 10), "T 10", "F [ A 2 %d 86400000000 , A 3 %d 0 ]" % (c + 10 + 86400000000, c + 10 + 4294967296), "T 4294967296", "F [ ]",
+                       "T 82105032704", "F [ ]", "T 86400000000", "F [ C 2 ]"])
     mk("deadline_eq_sentinel", ["A 1 %d 0" % (c + 100), "A 2 %d 0" % (c + 101), "T 100", "F [ ]", "T 1", "F [ ]"])
     return out
 
